@@ -1,5 +1,6 @@
 import RV.C06.Model
 import RV.C06.PatchText
+import RV.C06.TrigLoop
 import RV.Base.Proto
 /-
   C06 driver.  Terms / names are tokens owned by the harness:
@@ -140,6 +141,12 @@ def optOp? : String → Option (Option POp)
 def showErr : Option PErr → String
   | none => "ok" | some .parseError => "ParserError" | some .valueError => "ValueError"
 
+/-- what the driver runs for `emit`: for TriG the two loops of the serializer (`emitTrigLoop`, proved equal to
+    `emit .trig` in `trig_loop_refines`) -/
+def emitD : Fmt → Src → List Block
+  | .trig, s => emitTrigLoop s
+  | f, s => emit f s
+
 structure DSt where
   s1 : Src
   s2 : Src
@@ -157,11 +164,11 @@ def step (st : DSt) : List String → DSt × String
     | none => (st, "bad-op")
   | ["emit", f] =>
     match fmt? f with
-    | some f => (st, showBlocks (emit f st.s1))
+    | some f => (st, showBlocks (emitD f st.s1))
     | none => (st, "bad-op")
   | ["route", f] =>
     match fmt? f with
-    | some f => (st, showQuads (route f (emit f st.s1) 1000))
+    | some f => (st, showQuads (route f (emitD f st.s1) 1000))
     | none => (st, "bad-op")
   | ["diff"] => (st, showRows ((diff st.s1.d st.s2.d).map writeRow))
   | ["apply"] => (st, showQuads (apply (((diff st.s1.d st.s2.d).map writeRow).map readRow) st.s1.d))
